@@ -158,13 +158,14 @@ def shape_map_items(rnd, T, classes, wildcards=False):
         elif r < .7 and classes:
             it.update(kind="pattern", ps=["FOCUS", ""], pp=M.RDF_TYPE, po=["IRI", rnd.choice(classes)],
                       syntax=rnd.choice(["focus", "sparql"]),
-                      sparqlLayout=rnd.choice(["plain", "plain", "upper", "nowhere", "brace", "tab", "newline", "distinct"]))
+                      sparqlLayout=rnd.choice(["plain", "plain", "upper", "nowhere", "brace", "tab", "newline", "distinct", "filter", "filter", "invpath"]))
         elif props:
             p = rnd.choice(props)
             objs = sorted({o for s, pp, o in T if pp == p and o[0] == "IRI"})
             subs = sorted({s for s, pp, o in T if pp == p and s[0] == "IRI"})
             if objs and rnd.random() < .5:
-                it.update(kind="pattern", ps=["FOCUS", ""], pp=p, po=["IRI", rnd.choice(objs)[1]], syntax="focus")
+                it.update(kind="pattern", ps=["FOCUS", ""], pp=p, po=["IRI", rnd.choice(objs)[1]], syntax=rnd.choice(["focus", "focus", "sparql"]),
+                          sparqlLayout=rnd.choice(["plain", "invpath", "filter", "brace"]))
             elif subs and rnd.random() < .6:
                 it.update(kind="pattern", ps=["IRI", rnd.choice(subs)[1]], pp=p, po=["FOCUS", ""], syntax="focus")
             elif wildcards:
@@ -276,6 +277,9 @@ def check_c01(out, tier):
     run_and_judge(out, inc, ["C01"], mine, label="incoming links from typed / untyped, IRI / blank-node subjects")
     run_and_judge(out, [gen.hub_case(rnd, "c01h%d" % i) for i in range(3 * k)], ["C01"], mine, label="one instance with > 1000 values / incoming arcs")
     run_and_judge(out, [gen.partly_typed_case(rnd, "c01t%d" % i) for i in range(40 * k)], ["C01"], mine, label="IRI values partly instances of a shape")
+    # the kind a figure is attached to: every (lexical class, declared kind) of spec/LiteralTyping.tla through the rdflib readers
+    from harness import typing_leg
+    typing_leg.leg(out, "C01", ["turtle", "rdflib"])
     pinned_cases(out, "C01", ["C01"], mine)
     from harness import suite_traces, simulate
     simulate.replay(out, L2_BEHAVIOURS[tier], ["C01"], mine)
@@ -350,6 +354,9 @@ def check_c03(out, tier):
     k = SIZES[tier]
     run_and_judge(out, strict_cases(rnd, 220 * k, "c03s"), ["C03"], mine)
     run_and_judge(out, general_cases(rnd, 80 * k, "c03g", targets=False, reports=False), ["C03"], mine)
+    # a value matches the constraint of its own kind only if the reader typed it as the graph does (spec/LiteralTyping.tla)
+    from harness import typing_leg
+    typing_leg.leg(out, "C03", ["turtle", "xml", "nt"])
     pinned_cases(out, "C03", ["C03"], mine)
     from harness import simulate
     simulate.replay(out, L2_BEHAVIOURS[tier], ["C03"], mine)
@@ -400,6 +407,18 @@ def check_c04(out, tier):
         c["before"] = [rnd.choice(gen.THRESHOLDS) for _ in range(rnd.randint(1, 2))]
         allign.append(c)
     run_and_judge(out, allign, [], mine, crash_is_mine=True, label="all predicates ignored, repeated calls")
+    # valid documents without a single triple (empty, comments only, prefix declarations only), through every reader
+    notrip = []
+    for i, (ch, text) in enumerate([("nt", ""), ("nt", "# nothing here\n\n"), ("turtle", "@prefix ex: <http://example.org/> .\n# no statements\n"),
+                                    ("turtle_iter", "@prefix ex: <http://example.org/> .\n# no statements\n"), ("tsv_spo", "\n"), ("xml", None), ("rdflib", None)]):
+        for mode in ("all", "classes"):
+            c = gen.case("c04z%d%s" % (i, mode[0]), [], mode=mode, targets=[M.EX + "C0"] if mode == "classes" else [],
+                         format=rnd.choice(["shexc", "shacl"]), removeEmpty=rnd.random() < .5)
+            c["channel"] = ch
+            if text is not None:
+                c["rawText"] = text
+            notrip.append(c)
+    run_and_judge(out, notrip, [], mine, crash_is_mine=True, label="documents without triples")
     pinned_cases(out, "C04", [], mine, crash_is_mine=True)
     from harness import simulate
     simulate.replay(out, L2_BEHAVIOURS[tier], [], mine, crash_is_mine=True)
